@@ -236,7 +236,7 @@ Definition callee_ok (G : func) (nouts : nat) : bool :=
       forallb (fun b => forallb (fun i => negb (is_phi i)) (body_of b)) G &&
       forallb (fun i => negb (is_op "djmp" i)) (func_insts G) &&
       (match lead_phis b0 with [] => true | _ => false end) &&
-      forallb (fun i => if is_op "jmp" i || is_op "jnz" i || is_phi i
+      forallb (fun i => if is_op "jmp" i || is_op "jnz" i
                         then forallb (fun o => match o with OLab l => negb (N.eqb l 0) | _ => true end) (i_args i) else true)
               (func_insts G) &&
       forallb (fun i => if is_op "ret" i
@@ -293,6 +293,24 @@ Definition inline_check (F G : func) (cf g sb idx : nat) (r : rho) (F' : func) :
           | Some Fs => func_eqb F' Fs
           | None => false
           end
+      | _ => false
+      end
+  | None => false
+  end.
+
+(* the validator's domain: everything inline_check demands of the inputs of the pass (caller, callee, call site) and
+   nothing about its output.  Outside the domain a call site is reported as unsupported, never as a violation. *)
+Definition inline_domain (F G : func) (cf g sb idx : nat) : bool :=
+  match nth_error (nth_block F sb) idx with
+  | Some inv =>
+      String.eqb (i_op inv) "invoke" &&
+      match i_args inv with
+      | OLab gl :: args =>
+          N.eqb gl (FB + N.of_nat g) && negb (Nat.eqb cf g) &&
+          callee_ok G (List.length (i_outs inv)) &&
+          block_labels_ok (N.of_nat (List.length F)) F && block_labels_ok (N.of_nat (List.length G)) G &&
+          func_ok F && func_ok G && no_block_label_values G &&
+          N.ltb (N.of_nat (List.length F) + N.of_nat (List.length G) + 2) FB
       | _ => false
       end
   | None => false
